@@ -129,8 +129,8 @@ REVIEWED = {
     "selectors.py:KeysSelector.resolve": "5b8948373b56ac9a34a3199e", "selectors.py:RecursiveDescentSelector.resolve": "4b5cda5d1b39919fa85585c4",
     "selectors.py:ListSelector.resolve": "917fc2a47968297dcdf96cea", "selectors.py:Filter.resolve": "45cc2cda168fb5383e2ffd60",
     "selectors.py:<helper>._alist": "5036877e648d78f2cfe87064", "path.py:JSONPath._resolve": "3ec7717336386acecdc87b12",
-    "path.py:CompoundJSONPath.findall": "0205cee901f36160ec25898a", "path.py:CompoundJSONPath.finditer": "6ac1fdb308f76ef2345870ce",
-    "path.py:<helper>._intersection": "5c2aabe837d6f308531d469c", "path.py:<helper>._aintersection": "cc80fd441adb7272e0fe0cf8",
+    "path.py:CompoundJSONPath.findall": "0205cee901f36160ec25898a", "path.py:CompoundJSONPath.finditer": "47b8a89a056f2e6e1e92015d",
+    "path.py:<helper>._intersection": "930022f4629f253dee48f3ef", "path.py:<helper>._aintersection": "73e5ba1b3b9685ed2ae34a35",
     "path.py:<helper>._achain": "7e58c799f85010484db27c2f", "filter.py:SelfPath.evaluate": "ae9ca0b78f578dbfcb70ad94",
     "filter.py:RootPath.evaluate": "e0f5da885e540fbc55bcf0fb", "filter.py:FilterContextPath.evaluate": "9fe63bf8f0dacbef22071d32",
     "filter.py:CurrentKey.evaluate": "9c8ea5f9acb006d70652973c", "env.py:JSONPathEnvironment.getitem": "d52d014ddf95c7c9846ae579",
